@@ -391,7 +391,7 @@ def accessor_only(repo, res):
     "offsets are an exclusive prefix sum of prod(shape) over original_form.constants(), the same sequence "
     "the form descriptor enumerates; enabled_coefficients flows unmodified from UFL's integral data to "
     "both backends",
-    min_instances=10,
+    min_instances=9,
 )
 def prefix_offsets(repo, res):
     rep = repo.mod("ffcx.ir.representation")
@@ -472,15 +472,6 @@ def prefix_offsets(repo, res):
         if not re.search(r"'1' if i else '0' for i in ir\.enabled_coefficients", src):
             res.fail(key, f"{be} integral generator does not emit ir.enabled_coefficients element-wise as 1/0", g.module.line(g.node),
                      props=("C05",) if be == "C" else ("C05", "C18"))
-    # expression: original positions
-    f = rep.func("_compute_expression_ir")
-    key = f"{f.key}:original_coefficient_positions"
-    res.ob(key)
-    src = ast.unparse(f.node)
-    if "original_coefficient_positions.append(original_coefficients.index(coeff))" not in src or \
-            "original_coefficients = ufl.algorithms.extract_coefficients(original_expr)" not in src or \
-            "coefficients = ufl.algorithms.extract_coefficients(expr)" not in src:
-        res.fail(key, "expression original_coefficient_positions are not positions of the surviving coefficients in the original expression", rep.line(f.node))
 
 
 @rule(
